@@ -760,6 +760,11 @@ def rule_siblings(env, shared):
             # `c.then_some(v)` is None or Some(v), like the match it replaces (the condition is judged by ENDGUARD / COMPLETE)
             if x[0] == "call" and x[1] == "bool::then_some" and len(x[2]) == 2:
                 return ("phi", (("agg", "std::option::Option::None", ()), ("agg", "std::option::Option::Some", (x[2][1],))))
+            # `0 | L - c` is the two-armed spelling of saturating_sub(L, c) (the guard of the arms is judged by LEN / OVF)
+            if x[0] == "phi" and len(x[1]) == 2 and ("int", 0) in x[1]:
+                o = [y for y in x[1] if y != ("int", 0)]
+                if len(o) == 1 and o[0][0] == "bin" and o[0][1] == "Sub":
+                    return ("call", "saturating_sub", (o[0][2], o[0][3]))
             return None
         def g(x):
             # the order of the alternatives of a phi is an artefact of the control-flow layout (if/else vs match)
